@@ -123,6 +123,7 @@ static void report( const char* pid, const std::string& what, const Case& c, con
 }
 
 static uint64_t g_prog_hash = 0;
+static const Case* g_current_case = nullptr;
 
 static void one_execution( const Case& c, const std::vector< int >& pre, bool verbose = false )
 {
@@ -131,7 +132,9 @@ static void one_execution( const Case& c, const std::vector< int >& pre, bool ve
    memo.clear();
    g_begin = buf.p;
    L.record_events = S.check_hooks && c.cfg.ctl <= 2;
-   g_errors = ( c.cfg.ctl == 4 ) ? 1 : ( c.cfg.ctl == 5 ) ? 2 : 0;
+   g_errors = ( c.cfg.ctl == 4 || c.cfg.ctl == 6 ) ? 1 : ( c.cfg.ctl == 5 || c.cfg.ctl == 7 ) ? 2 : 0;
+   monitor_frames = ( c.cfg.ctl < 6 );  // controls 6 and 7 are must_if over the plain normal control: no monitor frames
+   g_current_case = &c;
    // the reference runs first: where it diverges there is no PEG result to compare with (DESIGN §3.1)
    RI.data = buf.p;
    RI.act_family = c.cfg.fam;
@@ -343,7 +346,7 @@ static void one_execution( const Case& c, const std::vector< int >& pre, bool ve
    if( L.c04 ) report( "C04", L.c04_msg, c, "", false );
    if( L.c06 ) report( "C06", strip_ns( L.c06_msg ) + ( ( g_ib | ( g_il - 1 ) | ( g_ic - 1 ) ) ? "|non-default initial counters" : "|default counters" ), c, L.c06_info );
    // ---- surviving action log (C04)
-   if( S.check_actions && r.kind == Real::OK && o.k == R::OK ) {
+   if( S.check_actions && monitor_frames && r.kind == Real::OK && o.k == R::OK ) {  // the transactional log needs the monitor's frames
       std::vector< std::array< int, 3 > > want;
       {
          std::vector< int > begins;
@@ -394,6 +397,18 @@ static void one_execution( const Case& c, const std::vector< int >& pre, bool ve
       vf::sample( "{\"table\":\"" + vf::jesc( show_tab( c.nrules ) ) + "\",\"input\":\"" + vf::jesc( vf::show( c.input ) ) + "\",\"cfg\":\"" + c.cfg.str() + "\",\"choices\":\"" + X.str() + "\",\"reference\":\"" + kind_name( o.k ) + "@" + std::to_string( o.k == R::OK ? o.pos : o.lo ) + "\",\"implementation\":\"" + real_name( r.kind ) + "@" + std::to_string( r.kind <= 1 ? r.pos : int( r.byte ) ) + "\"}" );
 }
 
+// std::terminate during a run = an exception could not propagate to the caller of parse() (e.g. thrown through a noexcept hook)
+static void on_terminate()
+{
+   if( g_current_case ) {
+      report( "C05", "std::terminate during the parsing run: an exception did not propagate to the caller of parse()", *g_current_case );
+   }
+   vf::st.exhaustive = false;
+   vf::st.note = "aborted by std::terminate inside the library; remaining executions of this shard not explored";
+   vf::finish();
+   _exit( 0 );
+}
+
 static void explore_case( Case& c )
 {
    std::vector< int > pre;
@@ -433,6 +448,7 @@ int main( int argc, char** argv )
 {
    vf::parse_args( argc, argv );
    install_fault_handler();
+   std::set_terminate( on_terminate );
    S.configure( vf::args.thorough() );
    if( vf::args.replay ) {
       auto f = vf::split( vf::args.the_case, '|' );
